@@ -826,10 +826,17 @@ def generic_replay(sc):
     except Exception as e:
         if isinstance(cctx.inner_exc, BaseException):
             e = cctx.inner_exc
+        site = _raise_site(e) if isinstance(e, Exception) else None
+        if sc.get("expect_exception") and site is not None and type(e).__name__ == sc["expect_exception"]:
+            shown = {k: v for k, v in list(cctx.inputs.items())[:24]}
+            return True, (f"harness {h.name} re-run on the real code with plain python numbers (shims off): the code under analysis raises "
+                          f"{type(e).__name__}: {str(e)[:200]} at {site[0]}:{site[1]} ({site[2]}) on an input the harness assumes valid; inputs {shown}")
         return None, f"generic concrete re-execution raised {type(e).__name__}: {e}\n{traceback.format_exc(limit=5)}"
     finally:
         V.set_context(prev)
         _clear_rpylib_caches()
+    if sc.get("expect_exception"):
+        return False, f"harness {h.name} ran to its end on the float values of the model without raising {sc['expect_exception']}"
     if cctx.target_seen == 0:
         return None, "generic concrete re-execution never reached the obligation"
     return False, f"obligation {sc['obligation']} holds on the float values of the model ({cctx.target_seen} evaluation(s))"
@@ -862,9 +869,66 @@ def run_path(fn, params, prefix, timeout_ms, seed, known, harness_ref=None):
         else:
             status = "error"
             err = f"{type(e).__name__}: {e}\n" + (f"[inner: {type(inner).__name__}: {inner}]\n" if inner else "") + "".join(traceback.format_tb(e.__traceback__, limit=-8))
+            try:
+                _raised_by_code_under_analysis(ctx, e, harness_ref)
+            except BaseException as e2:  # never let this disturb the exploration
+                ctx.notes.append(f"raise-obligation skipped: {type(e2).__name__}: {e2}")
     finally:
         V.set_context(None)
     return ctx, status, err
+
+
+def _repo_root():
+    import os
+
+    return os.path.join(os.environ.get("RPYLIB_REPO", "/repo"), "rpylib")
+
+
+def _raise_site(e):
+    """(file, line, function) of the frame that raised `e` when that frame belongs to the code under analysis, else None"""
+    tb = traceback.extract_tb(e.__traceback__)
+    if not tb:
+        return None
+    k = len(tb) - 1
+    while k > 0 and tb[k].filename.endswith("symx/abstract.py"):
+        k -= 1  # the abstract Levy model mirrors the argument checks of the real models (a <= b when integrating): attribute to its caller
+    last = tb[k]
+    if last.filename.startswith(_repo_root()) and "/tests/" not in last.filename:
+        return last.filename, last.lineno, last.name
+    return None
+
+
+def _raised_by_code_under_analysis(ctx, e, harness_ref):
+    """The harness assumed its inputs valid and the code under analysis itself raised on this path (the raising frame is in rpylib, not in
+    the engine): implicit obligation `<harness>.runs_without_raising_on_assumed_valid_input`.  The path condition is solved for a model and
+    the harness is re-run on plain numbers (generic replay); only a raise reproduced there is reported."""
+    site = _raise_site(e)
+    if site is None or harness_ref is None:
+        return
+    module, hname = harness_ref
+    pid = getattr(sys.modules.get(module), "PID", module)
+    oid = f"{pid}.{hname.split('.')[0]}.runs_without_raising_on_assumed_valid_input"
+    ctx.instantiate()
+    r = ctx._check()
+    rec = {"id": oid, "trace": list(ctx.trace), "trivial": False,
+           "info": {"raised": f"{type(e).__name__}: {str(e)[:200]}", "at": f"{site[0]}:{site[1]} in {site[2]}"}}
+    if r != z3.sat:
+        return  # infeasible or undecided path: the path error is listed as inconclusive by the runner
+    m = ctx.solver.model()
+    rec["verdict"] = "sat"
+    rec["model"] = {k: _jsonable(model_value(m, t)) for k, t in ctx.symbols.items()}
+    rec["regions_hit"] = []
+    scenario = {"module": module, "harness": hname, "obligation": oid, "expect_exception": type(e).__name__,
+                "values": {k: _plain(model_value(m, t)) for k, t in ctx.symbols.items()}, "functions": model_functions(m)}
+    rec["scenario"] = scenario
+    rec["replay_fn"] = "symx.explorer:generic_replay"
+    try:
+        ok, detail = generic_replay(scenario)
+    except BaseException as e2:
+        ok, detail = None, f"generic replay raised {type(e2).__name__}: {e2}"
+    rec["replayed"] = None if ok is None else bool(ok)
+    rec["replay_detail"] = detail
+    ctx.results.append(rec)
 
 
 def explore_batch(fn, params, prefixes, batch, timeout_ms, seed, known, deadline, harness_ref=None):
